@@ -368,7 +368,18 @@ def runSeq (j : Json) : Except String Json := do
   let steps ← stepsPairsOfJson (← j.getObjVal? "steps")
   let op ← seqOpOfJson (← j.getObjVal? "op")
   let impl ← seqResOfJson (← j.getObjVal? "impl")
-  let m := if genFacts.getitemViaSteps then seqModel root steps op else .other "unrecognised __getitem__"
+  expectKeys "seq case" j ["kind", "root", "steps", "op", "rt", "impl", "case"]   -- ("case": the framework's line number)
+  -- "rt": the result went through pickle / copy.deepcopy (the model: `pickleRes`) or copy.copy (shallow:
+  -- the same `path_t`) before it was observed; absent: observed as returned
+  let rt ← (match j.getObjVal? "rt" with
+    | .ok (.str "pickle") => pure "pickle"
+    | .ok (.str "deepcopy") => pure "deepcopy"
+    | .ok (.str "copy") => pure "copy"
+    | .ok v => throw s!"rt: expected pickle / copy / deepcopy, got {v.compress}"
+    | .error _ => pure "")
+  let m0 := if genFacts.getitemViaSteps then seqModel root steps op else .other "unrecognised __getitem__"
+  let m := if rt == "pickle" || rt == "deepcopy" then
+      pickleRes genFacts.getstateRoots genFacts.setstateRoots m0 else m0
   let holds := checkSeq root steps op impl
   let agree := decide (m = impl)
   let resKind := match seqRef root steps op with
@@ -376,7 +387,7 @@ def runSeq (j : Json) : Except String Json := do
     | _ => "value"
   return Json.mkObj [("agree", agree), ("holds", holds), ("model", seqResToJson m),
     ("ref", seqResToJson (seqRef root steps op)),
-    ("branch", s!"seq/{seqOpName op}/{resKind}"),
+    ("branch", s!"seq/{seqOpName op}/{resKind}" ++ (if rt == "" then "" else "/" ++ rt)),
     ("why", (if holds then "" else "differs from the same operation on the tuple of steps; ") ++
             (if agree then "" else "model differs from implementation; "))]
 
